@@ -16,28 +16,24 @@ def ValidBox (b : Aabb3 K) : Prop := b.mins.x ≤ b.maxs.x ∧ b.mins.y ≤ b.ma
 /-- valid, or exactly the sentinel `Aabb::new_invalid()` of an empty lane -/
 def VoS (b : Aabb3 K) : Prop := ValidBox b ∨ b = invalidBox
 
-/-- the facts about `dilate_by_factor(dil)` the argument needs -/
-structure DilateLaws (K : Type) [Num K] (dil : K) : Prop where
-  valid : ∀ b : Aabb3 K, ValidBox b → ValidBox (dilateBox dil b) ∧ boxContains (dilateBox dil b) b = true
-  invalid : dilateBox dil (invalidBox : Aabb3 K) = invalidBox
-  merged : ∀ v : Vector (Aabb3 K) 4, (∀ (l : Nat) (b : Aabb3 K), v[l]? = some b → VoS b) → VoS (mergedBox v)
-
-theorem DilateLaws.vos {dil : K} (d : DilateLaws K dil) (laws : BoxLaws K) (b : Aabb3 K) (h : VoS b) :
-    VoS (dilateBox dil b) ∧ boxContains (dilateBox dil b) b = true := by
-  rcases h with h | rfl
-  · exact ⟨Or.inl (d.valid b h).1, (d.valid b h).2⟩
-  · rw [d.invalid]; exact ⟨Or.inr rfl, laws.refl _⟩
+/-- the facts about `dilate_by_factor(dil)` the argument needs, for a class `P` of boxes (the leaf boxes given, the
+sentinel of empty lanes, and everything built from them): `dilate_by_factor` keeps `P` and enlarges, merging keeps `P`.
+Instances (`FieldLemmas.lean`): `P` = "valid or the sentinel" for every factor `≥ 0`; `P` = all boxes for the factor `0`. -/
+structure DilateLaws (K : Type) [Num K] (dil : K) (P : Aabb3 K → Prop) : Prop where
+  step : ∀ b : Aabb3 K, P b → P (dilateBox dil b) ∧ boxContains (dilateBox dil b) b = true
+  inv : P invalidBox
+  merged : ∀ v : Vector (Aabb3 K) 4, (∀ (l : Nat) (b : Aabb3 K), v[l]? = some b → P b) → P (mergedBox v)
 
 /-- the user's current box of every leaf of the slice is the (valid) box the builder reads, and the proxy carries its
 own index as data -/
-def CurOk (aabbs : Array (Aabb3 K)) (cur : Nat → Aabb3 K) (q : Q K) (indices : Array Nat) : Prop :=
-  ∀ x ∈ indices, ∃ (pr : Proxy) (b : Aabb3 K), q.proxies[x]? = some pr ∧ pr.data = x ∧ aabbs[x]? = some b ∧ cur x = b ∧ ValidBox b
+def CurOk (P : Aabb3 K → Prop) (aabbs : Array (Aabb3 K)) (cur : Nat → Aabb3 K) (q : Q K) (indices : Array Nat) : Prop :=
+  ∀ x ∈ indices, ∃ (pr : Proxy) (b : Aabb3 K), q.proxies[x]? = some pr ∧ pr.data = x ∧ aabbs[x]? = some b ∧ cur x = b ∧ P b
 
 /-- what a successful call guarantees about boxes -/
-def BuildBox (aabbs : Array (Aabb3 K)) (cur : Nat → Aabb3 K) (q : Q K) (indices : Array Nat) (par plane : Nat)
+def BuildBox (P : Aabb3 K → Prop) (aabbs : Array (Aabb3 K)) (cur : Nat → Aabb3 K) (q : Q K) (indices : Array Nat) (par plane : Nat)
     (r : Q K × Nat × Aabb3 K) : Prop :=
-  indices.toList.Nodup → CurOk aabbs cur q indices → q.proxies.size ≤ MAXN → r.1.nodes.size ≤ MAXN →
-    VoS r.2.2 ∧ (∀ nd : Node K, r.1.nodes[q.nodes.size]? = some nd → r.2.2 = mergedBox nd.boxes) ∧
+  indices.toList.Nodup → CurOk P aabbs cur q indices → q.proxies.size ≤ MAXN → r.1.nodes.size ≤ MAXN →
+    P r.2.2 ∧ (∀ nd : Node K, r.1.nodes[q.nodes.size]? = some nd → r.2.2 = mergedBox nd.boxes) ∧
     ∀ (n : Nat) (nd : Node K), q.nodes.size ≤ n → r.1.nodes[n]? = some nd → GoodNode r.1 cur nd
 
 theorem map_get4 {α β} (f : α → β) (v : Vector α 4) (l : Nat) (y : β) (h : (v.map f)[l]? = some y) :
@@ -67,17 +63,17 @@ theorem goodNode_frame {q q' : Q K} {N M par plane : Nat} {S : Nat → Prop} (cu
     · obtain ⟨a1, a2, _⟩ := sub.child n nd a b hnd hleaf l c hc hcm
       rw [hn c (by omega) a2]
 
-theorem buildRec_box (laws : BoxLaws K) (aabbs : Array (Aabb3 K)) (dil : K) (d : DilateLaws K dil) (cur : Nat → Aabb3 K)
+theorem buildRec_box (laws : BoxLaws K) (P : Aabb3 K → Prop) (aabbs : Array (Aabb3 K)) (dil : K) (d : DilateLaws K dil P) (cur : Nat → Aabb3 K)
     (fuel : Nat) (q : Q K) (indices : Array Nat) (par plane : Nat)
     (r : Q K × Nat × Aabb3 K) (h : buildRec aabbs dil fuel q indices par plane = some r) :
-    BuildBox aabbs cur q indices par plane r := by
-  refine buildRec_induct aabbs dil (BuildBox aabbs cur) ?_ ?_ fuel q indices par plane r h
+    BuildBox P aabbs cur q indices par plane r := by
+  refine buildRec_induct aabbs dil (BuildBox P aabbs cur) ?_ ?_ fuel q indices par plane r h
   · -- leaf
     intro q indices par plane bx ids ps hsz hl hnd hcur hps _
     obtain ⟨h1, h2, h3, h4⟩ := buildLeafLoop_spec aabbs q.nodes.size indices.toList 0 _ _ _ _ _ _ hl hnd
     -- lane by lane: the box stored, the id stored, the proxy behind it
     have hlane : ∀ (l : Nat) (x : Aabb3 K) (c : Nat), bx[l]? = some x → ids[l]? = some c →
-        VoS x ∧ boxContains (dilateBox dil x) (match ps[c]? with
+        P x ∧ boxContains (dilateBox dil x) (match ps[c]? with
           | some pr => cur pr.data
           | none => invalidBox) = true := by
       intro l x c hx hc
@@ -90,15 +86,14 @@ theorem buildRec_box (laws : BoxLaws K) (aabbs : Array (Aabb3 K)) (dil : K) (d :
         rw [a4] at e1; cases e1
         rw [a3] at e3; cases e3
         simp only [a5, e2, e4]
-        exact ⟨Or.inl e5, (d.valid x e5).2⟩
+        exact ⟨e5, (d.step x e5).2⟩
       · obtain ⟨a1, a2⟩ := h3 l (Or.inr (by omega))
         rw [a1] at hc; rw [a2] at hx
         have hc' := replicate4_get _ _ _ hc
         have hx' := replicate4_get _ _ _ hx
         subst hc' hx'
         rw [Array.getElem?_eq_none (by omega)]
-        rw [d.invalid]
-        exact ⟨Or.inr rfl, laws.refl _⟩
+        exact ⟨d.inv, (d.step _ d.inv).2⟩
     have hN : ({ q with nodes := q.nodes.push (builtLeaf dil bx ids par plane), proxies := ps } : Q K).nodes[q.nodes.size]? =
         some (builtLeaf dil bx ids par plane) := by simp
     have hids : ∀ l, l < 4 → ∃ c, ids[l]? = some c := fun l hl => ⟨ids[l], by simp [hl]⟩
@@ -108,7 +103,7 @@ theorem buildRec_box (laws : BoxLaws K) (aabbs : Array (Aabb3 K)) (dil : K) (d :
       obtain ⟨x, hx, rfl⟩ := map_get4 _ _ _ _ hy
       have hl4 : l < 4 := by rcases vec4_lane _ l x hx with rfl | rfl | rfl | rfl <;> omega
       obtain ⟨c, hc⟩ := hids l hl4
-      exact (d.vos laws x (hlane l x c hx hc).1).1
+      exact (d.step x (hlane l x c hx hc).1).1
     · intro nd hnd'; rw [hN] at hnd'; cases hnd'; rfl
     · intro n nd a hn
       have hlt := (Array.getElem?_eq_some_iff.mp hn).1
@@ -185,17 +180,17 @@ theorem buildRec_box (laws : BoxLaws K) (aabbs : Array (Aabb3 K)) (dil : K) (d :
     have ps2 : q3.proxies.size = q.proxies.size := by rw [f2.psize, ps1]
     have ps3 : q4.proxies.size = q.proxies.size := by rw [f3.psize, ps2]
     -- current boxes of the sub-slices
-    have cur0 : CurOk aabbs cur { q with nodes := q.nodes.push (openNode par plane) } s0 :=
+    have cur0 : CurOk P aabbs cur { q with nodes := q.nodes.push (openNode par plane) } s0 :=
       fun x hx => hcur x ((hmem x).2 (Or.inl hx))
-    have cur1 : CurOk aabbs cur q1 s1 := by
+    have cur1 : CurOk P aabbs cur q1 s1 := by
       intro x hx
       obtain ⟨pr, b, a1, rest⟩ := hcur x ((hmem x).2 (Or.inr (Or.inl hx)))
       exact ⟨pr, b, by rw [u0 x (fun h0 => x01 x h0 hx)]; exact a1, rest⟩
-    have cur2 : CurOk aabbs cur q2 s2 := by
+    have cur2 : CurOk P aabbs cur q2 s2 := by
       intro x hx
       obtain ⟨pr, b, a1, rest⟩ := hcur x ((hmem x).2 (Or.inr (Or.inr (Or.inl hx))))
       exact ⟨pr, b, by rw [u1 x (fun h0 => x12 x h0 hx), u0 x (fun h0 => x02 x h0 hx)]; exact a1, rest⟩
-    have cur3 : CurOk aabbs cur q3 s3 := by
+    have cur3 : CurOk P aabbs cur q3 s3 := by
       intro x hx
       obtain ⟨pr, b, a1, rest⟩ := hcur x ((hmem x).2 (Or.inr (Or.inr (Or.inr hx))))
       exact ⟨pr, b, by rw [u2 x (fun h0 => x23 x h0 hx), u1 x (fun h0 => x13 x h0 hx), u0 x (fun h0 => x03 x h0 hx)]; exact a1, rest⟩
@@ -235,10 +230,10 @@ theorem buildRec_box (laws : BoxLaws K) (aabbs : Array (Aabb3 K)) (dil : K) (d :
       simp only [dilated4] at hy
       obtain ⟨x, hx, rfl⟩ := map_get4 _ _ _ _ hy
       rcases vec4_lane _ l x hx with rfl | rfl | rfl | rfl <;> simp at hx <;> subst hx
-      · exact (d.vos laws _ v0).1
-      · exact (d.vos laws _ v1).1
-      · exact (d.vos laws _ v2).1
-      · exact (d.vos laws _ v3).1
+      · exact (d.step _ v0).1
+      · exact (d.step _ v1).1
+      · exact (d.step _ v2).1
+      · exact (d.step _ v3).1
     · intro nd' hnd'; rw [hN5] at hnd'; cases hnd'; rfl
     · intro n nd' a hn'
       by_cases hN : n = q.nodes.size
@@ -253,13 +248,13 @@ theorem buildRec_box (laws : BoxLaws K) (aabbs : Array (Aabb3 K)) (dil : K) (d :
         obtain ⟨c, hc, rfl⟩ := map_get4 _ _ _ _ hy
         rcases vec4_lane _ l x0 hx0 with rfl | rfl | rfl | rfl <;> simp at hx0 hc <;> subst hx0 hc
         · obtain ⟨cn, e1, e2⟩ := root0
-          rw [hne' _ _ (by omega), e1]; dsimp only; rw [← e2]; exact (d.vos laws _ v0).2
+          rw [hne' _ _ (by omega), e1]; dsimp only; rw [← e2]; exact (d.step _ v0).2
         · obtain ⟨cn, e1, e2⟩ := root1
-          rw [hne' _ _ (by omega), e1]; dsimp only; rw [← e2]; exact (d.vos laws _ v1).2
+          rw [hne' _ _ (by omega), e1]; dsimp only; rw [← e2]; exact (d.step _ v1).2
         · obtain ⟨cn, e1, e2⟩ := root2
-          rw [hne' _ _ (by omega), e1]; dsimp only; rw [← e2]; exact (d.vos laws _ v2).2
+          rw [hne' _ _ (by omega), e1]; dsimp only; rw [← e2]; exact (d.step _ v2).2
         · obtain ⟨cn, e1, e2⟩ := root3
-          rw [hne' _ _ (by omega), e1]; dsimp only; rw [← e2]; exact (d.vos laws _ v3).2
+          rw [hne' _ _ (by omega), e1]; dsimp only; rw [← e2]; exact (d.step _ v3).2
       · have hlt := (Array.getElem?_eq_some_iff.mp hn').1
         rw [Array.size_setIfInBounds] at hlt
         rw [hne n hN] at hn'
@@ -339,10 +334,10 @@ theorem curAfter_mem : ∀ (items : List (Nat × Aabb3 K)) (p : Nat), p ∈ item
 /-- **`clear_and_rebuild` establishes the box invariant** for valid boxes (degenerate ones included), pairwise different
 ids and any dilation factor satisfying `DilateLaws` (every factor `≥ 0` over an ordered field): afterwards every lane box
 contains the current box of its leaf / the merged box of its child. -/
-theorem rebuild_box (laws : BoxLaws K) (q q' : Q K) (items : List (Nat × Aabb3 K)) (dil : K) (d : DilateLaws K dil)
+theorem rebuild_box (laws : BoxLaws K) (P : Aabb3 K → Prop) (q q' : Q K) (items : List (Nat × Aabb3 K)) (dil : K) (d : DilateLaws K dil P)
     (cur : Nat → Aabb3 K)
     (hnd : (items.map (·.1)).Nodup) (hid : ∀ it ∈ items, it.1 < MAXN) (hlen : 4 * items.length + 2 ≤ MAXN)
-    (hvalid : ∀ it ∈ items, ValidBox it.2) (h : rebuild q items dil = some q') :
+    (hvalid : ∀ it ∈ items, P it.2) (h : rebuild q items dil = some q') :
     BoxInv q' (curAfter items cur) := by
   cases hf : fillProxies items (Array.replicate items.length invalidProxy, Array.replicate items.length invalidBox, #[])
     with | mk ps rest =>
@@ -380,13 +375,13 @@ theorem rebuild_box (laws : BoxLaws K) (q q' : Q K) (items : List (Nat × Aabb3 
   rw [rebuild_eq q items dil ps aabbs indices hf, hb] at h
   simp only [hroot1, Option.some.injEq] at h
   -- current boxes
-  have hcur : CurOk aabbs (curAfter items cur) { q with freeList := [], nodes := #[rebuildRoot], proxies := ps } indices := by
+  have hcur : CurOk P aabbs (curAfter items cur) { q with freeList := [], nodes := #[rebuildRoot], proxies := ps } indices := by
     intro x hx
     obtain ⟨pr, e, dt⟩ := hdata x hx
     obtain ⟨b, hb1, hb2⟩ := curAfter_mem items x ((hix x).1 hx)
     refine ⟨pr, b, e, dt, ?_, hb2 _, hvalid _ hb1⟩
     rw [f7 x (hrange x hx).2, hb2]
-  obtain ⟨vos, m, k⟩ := buildRec_box laws aabbs dil d (curAfter items cur) _ _ _ _ _ _ hb hixnd hcur hpsmall hcount
+  obtain ⟨vos, m, k⟩ := buildRec_box laws P aabbs dil d (curAfter items cur) _ _ _ _ _ _ hb hixnd hcur hpsmall hcount
   dsimp only at vos m k
   rw [hone] at m k
   have hq' : q' = ({ q1 with rootAabb := aabb, nodes := q1.nodes.setIfInBounds 0 (rebuiltRoot aabb) } : Q K) := h.symm
